@@ -40,7 +40,7 @@ def limit_of(F, fn):
 
 # the limit each machine of witness w_limit was *declared* with (namespace of its states -> limit); every other witness machine uses
 # the default configuration
-W_LIMIT_DECLARED = {'l1': 1, 'l2': 2, 'l3': 3, 'l4': 4, 'l255': 255, 't1': 4, 't2': 4, 't255': 4}
+W_LIMIT_DECLARED = {'l1': 1, 'l2': 2, 'l3': 3, 'l4': 4, 'l255': 255, 't1': 4, 't2': 4, 't255': 4, 't8': 4, 't254': 4}
 DEFAULT_LIMIT = 4
 
 
